@@ -266,6 +266,9 @@ func (x *xl) expr(e ast.Expr) ([]string, string, error) {
 				return nil, "", x.errf(e, "field identifier %s", y.Name)
 			}
 			if o.Parent() == o.Pkg().Scope() {
+				if x.pkgVarEmptySlice(o) {
+					return nil, "[]", nil
+				}
 				return nil, "", x.errf(e, "package-level variable %s", y.Name)
 			}
 			if x.f.Flatten && o == x.recv {
